@@ -136,8 +136,8 @@ PROPS = {
     ),
     'C01': dict(
         families=['typed'], reports=['marshal', 'unmarshal'], consts=True,
-        proof_files=TYPED_U + ['Proofs/AnyP.v', 'Proofs/RoundTripFullP.v'],
-        theorems='c01_marshal_total, c01_roundtrip_full_partial(_fuel, _stable) [maps, interface positions, tuple funcs], c01_roundtrip_tokens_partial / _fuel / c01_roundtrip_exact [functional normal form on simple_ty], c01_equiv_normal, c01_registered_*_roundtrip, c01_bytes_key_in_any (+ c01_roundtrip_full_refuted, c01_refuted_outside_domain: the six edges of the domain); the byte route composes with c02_decode_encode',
+        proof_files=TYPED_U + ['Proofs/AnyP.v', 'Proofs/RoundTripFullP.v', 'Proofs/TuplesP.v'],
+        theorems='c01_typed_tuple_roundtrip, c01_typed_tuple_is_func, c01_tuple_is_any [sb.Tuple / sb.TypedTuple targets on top of the unmarshal model]; c01_marshal_total, c01_roundtrip_full_partial(_fuel, _stable) [maps, interface positions, tuple funcs], c01_roundtrip_tokens_partial / _fuel / c01_roundtrip_exact [functional normal form on simple_ty], c01_equiv_normal, c01_registered_*_roundtrip, c01_bytes_key_in_any (+ c01_roundtrip_full_refuted, c01_refuted_outside_domain: the six edges of the domain); the byte route composes with c02_decode_encode',
         assumptions=['PARTIAL as a theorem: not covered by c01_roundtrip_full_partial are interface values nested below the top of a map key, registered types nested inside []any / map[string]any held in an interface, tuple funcs with more than 50 results, embedded fields; these are decided by the correspondence (marshal and unmarshal models evaluated in Coq on every generated case) and the Go round-trip oracle, through tokens and through the byte codec with every writer/reader flavour',
                      'known findings: a non-nil pointer to a nil pointer / nil interface; an array that is not a byte array in an interface-typed map key',
                      'a nil tuple func with results is outside the quantifier (nil positions listed there: pointer/slice/map/interface)',
@@ -146,10 +146,10 @@ PROPS = {
     'C05': dict(
         families=['typed'], reports=['unmarshal'], consts=True,
         reference_reports={'unmarshal': 'the model `unm` (Model/Unmarshal.v) is the reference interpretation the property names (c05_* state its totality, exact consumption, mismatch reporting)'},
-        proof_files=TYPED_U + ['Spec/ConformSpec.v', 'Proofs/ConformP.v'],
-        theorems='c05_ok_iff_conforms (the declarative relation Conforms of Spec/ConformSpec.v <-> the executable model), c05_conforms_sound / _complete / _iff_bound / _functional / _fuel_independent, c05_err_iff_not_conforms, c05_scalar_conforms_iff, c05_mismatch_reported_general / _structural, c05_total, c05_total_exists, c05_fuel_monotone, c05_consumes_prefix, c05_nil_leaves_untouched, c05_end_token_rejected, c05_empty_is_eof, c05_scalar_exact_kind, c05_mismatch_reported, c05_unknown_field_skipped, c05_skip_any_value',
+        proof_files=TYPED_U + ['Spec/ConformSpec.v', 'Proofs/ConformP.v', 'Proofs/TuplesP.v'],
+        theorems='c05_tuple_head_rejects, c05_tuple_head_empty, c05_typed_tuple_too_few, c05_typed_tuple_too_many, c05_typed_tuple_total, c05_tuple_total [sb.Tuple / sb.TypedTuple targets]; c05_ok_iff_conforms (the declarative relation Conforms of Spec/ConformSpec.v <-> the executable model), c05_conforms_sound / _complete / _iff_bound / _functional / _fuel_independent, c05_err_iff_not_conforms, c05_scalar_conforms_iff, c05_mismatch_reported_general / _structural, c05_total, c05_total_exists, c05_fuel_monotone, c05_consumes_prefix, c05_nil_leaves_untouched, c05_end_token_rejected, c05_empty_is_eof, c05_scalar_exact_kind, c05_mismatch_reported, c05_unknown_field_skipped, c05_skip_any_value',
         assumptions=['the declarative relation Conforms is proved equivalent to the executable model `unm`; acceptance, resulting value and error class of the IMPLEMENTATION are compared with that model on every generated (stream, target) pair (plain and through TapUnmarshal with an observing tap); that the implementation never panics and always returns is an observable of that comparison (watchdog), not a theorem',
-                     'struct types with embedded (anonymous) fields are not in the unmarshal model (field promotion) and are excluded from the generated targets'],
+                     'struct types with embedded (anonymous) fields are not in the unmarshal model (field promotion) and are excluded from the generated targets; Go\'s promotion rules (shallowest declaration, ambiguity at equal depth, nil embedded pointers at any level) are directed Go-side oracles'],
     ),
     'C16': dict(
         families=['typed'], reports=['marshal', 'unmarshal'],
